@@ -10,8 +10,10 @@ vars == <<in, out, pc>>
 Trees == {"current", "legacy", "billing", "hourly"}
 Init ==
   /\ \/ \E t \in Trees : in = [kind |-> "default", tree |-> t]
-     \/ \E k \in 1..Len(Fields), c \in {"def", "alt", "bad"}, dm \in BOOLEAN, sl \in BOOLEAN, sp \in {"plain", "upper", "padded"}, fm \in {"dict", "object"} :
+     \/ \E k \in 1..Len(Fields), c \in {"def", "alt", "bad"}, dm \in BOOLEAN, sl \in BOOLEAN, sp \in {"plain", "upper", "padded", "lowerpad", "tabnl", "pathpad", "pathupper"}, fm \in {"dict", "object"} :
           /\ (c = "alt" => Fields[k].alt # "")
+          \* case and padding separately (a lower-case key with blanks / tab and newline around it), and on every component of a nested path
+          /\ (sp \in {"lowerpad", "tabnl", "pathpad", "pathupper"} => c # "def" /\ fm = "dict")
           /\ (Fields[k].tree = "hourly" => ~dm /\ ~sl)
           /\ (sl /\ ~dm => c = "alt" /\ sp = "plain")        \* the silent flag alone is tried against every field's alternative
           /\ in = [kind |-> "construct", tree |-> Fields[k].tree, fi |-> k, choice |-> c, devmode |-> dm, silent |-> sl, spelling |-> sp, form |-> fm]
